@@ -5,7 +5,7 @@ ENTRY = {'title': 'Payload decoding conforms to the ecoNET wire layout for every
  'technique': 'Lean 4 round-trip theorems decode(encode m ++ rest) = (valOf m, rest) for every structure and the whole sensor chain (wire layout '
               'written once as encoders = the specification) + correspondence: Lean-encoded messages decoded by the real frames, plus a malformed '
               'stream',
- 'prop_modules': ['C05Sensors', 'C05Params', 'C05Ctx', 'C05CtxDevice', 'C05Device', 'C05Short', 'C05Uid', 'C05ShortParams', 'TieUid', 'TieParams', 'TieSchedule', 'TieStructParams', 'TieStructSensors', 'TieStructSections'],
+ 'prop_modules': ['C05Sensors', 'C05Params', 'C05Ctx', 'C05CtxDevice', 'C05Device', 'C05Short', 'C05Uid', 'C05ShortParams', 'TieUid', 'TieParams', 'TieSchedule', 'TieStructParams', 'TieStructSensors', 'TieStructSections', 'TieStructSchedules'],
  'uses_tables': True,
  'level_text': 'Proof: for ALL well-formed abstract messages and ALL trailing bytes the decoder model run on the Lean-defined encoding returns '
                'exactly the encoded values and the remainder: the 16-section sensor chain (`rt_sensorData`, every presence combination; per-section '
@@ -28,7 +28,13 @@ ENTRY = {'title': 'Payload decoding conforms to the ecoNET wire layout for every
  'level_note': 'All structures have a round-trip theorem. Rests on correspondence: model <-> structures/*.py, purity, error classes of malformed '
                'payloads, formatted model name (printable ASCII only), UTF-8 validity = bytes.decode. Trusted: struct float conversion, inet_ntop '
                'text.',
- 'clauses': {'code tie of the short sensor sections and the mixer-sensors section (round 8): the SOURCE TEXT of FuelLevelStructure / BoilerLoadStructure / '
+ 'clauses': {'code tie of the schedules structure (round 8): the SOURCE TEXT of SchedulesStructure._unpack_schedule / .decode, translated on every run, equals '
+             'Sched.decodeWeek / Sched.decodeResponse for every message, every NATURAL offset (negative offsets not covered), every instance and every data '
+             'argument that is None or a string-keyed dict: (index, week) per entry, returned offset offset + 3 + 47*count, IndexError when the model '
+             'fails, fewer than 3 bytes = no schedules with the offset unchanged; the schedule_parameters list is stated from the raw bytes (rawParams, '
+             'with P2.unpackParam): the model Entry keeps switch and value only':
+                 'theorem (TieStructSchedules.unpack_schedule_eq, sched_fold, schedules_decode_eq) + translator validation (harness/pycode.py group schedule)',
+             'code tie of the short sensor sections and the mixer-sensors section (round 8): the SOURCE TEXT of FuelLevelStructure / BoilerLoadStructure / '
              'PendingAlertsStructure / FanPowerStructure / BoilerPowerStructure / FuelConsumptionStructure / OutputFlagsStructure .decode and of '
              'MixerSensorsStructure (._unpack_mixer_sensors, ._mixer_sensors, .decode), translated on every run, equals Sens.decFuelLevel / decBoilerLoad / '
              'decPendingAlerts / decOptF32 / decOutputFlags / decMixer / decMixers (the model function is on the right-hand side of each theorem) for every '
